@@ -37,6 +37,18 @@ def strip(e):
     return e
 
 
+def is_noop(s):
+    """`(void) 0` and friends (what HFSM2_ASSERT / HFSM2_BREAK expand to on this platform)."""
+    if not isinstance(s, dict):
+        return False
+    if s.get("k") == "cast" and s.get("cast") == "ToVoid":
+        e = strip(s.get("e"))
+        return isinstance(e, dict) and e.get("k") in ("lit", "var")
+    if s.get("k") == "null":
+        return True
+    return False
+
+
 def has_opaque(n):
     return any(x.get("k") == "opaque" for x in walk(n))
 
@@ -351,7 +363,7 @@ class Sym:
         body = b.get("body")
         if not body or body.get("k") != "seq":
             return None
-        ss = body.get("s", [])
+        ss = [x for x in body.get("s", []) if not is_noop(x)]
         if len(ss) != 1 or ss[0].get("k") != "ret" or ss[0].get("e") is None:
             return None
         return b, ss[0]["e"]
@@ -409,6 +421,9 @@ class Sym:
                     sub = Sym(self.F, e["f"], ps, self.sym(e["obj"]) if e.get("obj") is not None else "this", self.depth + 1)
                     return sub.sym(rete)
                 name = self.F.fdisp(e["f"])
+                fta = self.F.fn(e["f"]).get("ftargs")
+                if fta:
+                    name += "<" + ",".join(str(a.get("n", a.get("v"))) if isinstance(a, dict) else "T" for a in fta) + ">"
                 args = ",".join(self.sym(a) for a in e.get("a", []))
                 obj = self.sym(e["obj"]) + "." if e.get("obj") is not None else ""
                 return obj + name + "(" + args + ")"
@@ -454,6 +469,15 @@ class Sym:
                 else:
                     self.env[n] = "(" + cur + node["op"][:-1] + self.sym(node["rhs"]) + ")"
 
+    def stale(self, place):
+        """A place was overwritten: value locals that copied it earlier now hold its *old* value."""
+        if not place or place.startswith("L:") or len(place) < 4:
+            return
+        for n in list(getattr(self, "_valuelocals", ())):
+            v = self.env.get(n)
+            if v and place in v:
+                self.env[n] = v.replace(place, "old(" + place + ")")
+
     def _is_value_local(self, n):
         return n in self._valuelocals if hasattr(self, "_valuelocals") else False
 
@@ -489,6 +513,7 @@ def symbolize(facts, fid, path):
                 if n["op"] != "=":
                     val = "(" + place + n["op"][:-1] + val + ")"
                 out.append(("write", n, place, val))
+                S.stale(place)
         elif t == "inc":
             n = ev[1]
             tgt = strip(n["e"])
@@ -498,6 +523,7 @@ def symbolize(facts, fid, path):
                 out.append(("lwrite", n, "L:" + tgt["n"], S.env[tgt["n"]]))
             else:
                 out.append(("write", n, place, "(" + place + n["op"][0] + "#1)"))
+                S.stale(place)
         elif t == "call":
             n = ev[1]
             obj = S.sym(n["obj"]) if n.get("obj") is not None else None
